@@ -9,13 +9,19 @@ require (
 
 require (
 	github.com/TwiN/go-color v1.4.1 // indirect
+	github.com/dchest/siphash v1.2.3 // indirect
+	github.com/dgryski/go-maglev v0.0.0-20200611225407-8961b9b1b8e6 // indirect
 	github.com/go-faster/xor v0.3.0 // indirect
+	github.com/google/btree v1.1.3 // indirect
 	github.com/gotd/ige v0.2.2 // indirect
 	github.com/josharian/intern v1.0.0 // indirect
 	github.com/mailru/easyjson v0.7.8-0.20240109111231-141f9c7d7ffe // indirect
 	github.com/valyala/bytebufferpool v1.0.0 // indirect
 	github.com/valyala/quicktemplate v1.7.0 // indirect
+	golang.org/x/crypto v0.0.0-20210513164829-c07d793c2f9a // indirect
 	golang.org/x/exp v0.0.0-20240604190554-fc45aab8b7f8 // indirect
+	golang.org/x/sys v0.30.0 // indirect
+	pgregory.net/rand v1.0.2 // indirect
 )
 
 replace github.com/VKCOM/tl => /repo
